@@ -24,7 +24,8 @@ SHARD = 4
 RULE = ('random tomtom(...) calls: 1-3 queries and 1-5 targets with lengths 1-25 (queries shorter, equal '
         'and longer than targets), PWMs from Dirichlet(0.05/0.3/1) either continuous or rounded to a '
         'grid of 4 or 10 (coarse grids make ties, duplicate columns and integerised similarities equal '
-        'to 0 frequent), n_score_bins 5-200, reverse complement on/off, hashing off or on (on: checked '
+        'to 0 frequent), a dedicated stream over the grid {0,1/4,1/2,1} with odd n_score_bins (53, 75, 150, random odd) '
+        'where distances, medians and the scaled similarity are exact doubles (half-integer ties), n_score_bins 5-200, reverse complement on/off, hashing off or on (on: checked '
         'injective, else the case is dropped), a target equal to a query in ~30%, the whole target set '
         'reverse-complemented in ~10%; plus a dedicated stream of single-column queries with a zero '
         'similarity; n_cache = 2*n_score_bins+10 always. non-trivial = at least one query/target pair '
@@ -93,7 +94,9 @@ def stage(P, nb, n_median_bins=1000):
                                                   P['T_norm'], P['rr_counts'], qo[i], nq, nb)
         x = gi[:, :nq][:, ::-1].astype('int64') + int(off)
         out.append({'off': int(off), 'x': x.tolist(), 'f': f[:nq].tolist(),
-                    'gmin': int(gi[:, :nq].min()), 'gmax': int(gi[:, :nq].max())})
+                    'gmin': int(gi[:, :nq].min()), 'gmax': int(gi[:, :nq].max()),
+                    'med': med[:nq].tolist(),                     # medians[i] as left by the kernel (median + i_min)
+                    'W': float((gamma[:, :nq] - med[None, :nq]).max())})   # z_max - i_min
     return out
 
 
@@ -205,6 +208,118 @@ def mono_cases(inp, out, qi, limit=2):
     return res
 
 
+def _is_rep(fr):
+    """is the rational exactly a double?"""
+    try:
+        return Fraction(float(fr)) == fr
+    except OverflowError:
+        return False
+
+
+def _dyadic(v):
+    d = Fraction(v).denominator
+    return d <= 1024 and d & (d - 1) == 0
+
+
+def _sqrt_bracket(fr, digits=40):
+    n, d = fr.numerator, fr.denominator
+    rn, rd = math.isqrt(n), math.isqrt(d)
+    if rn * rn == n and rd * rd == d:
+        s = Fraction(rn, rd)
+        return s, s, True
+    S = 10 ** digits
+    r = math.isqrt(n * d * S * S)
+    return Fraction(r, d * S), Fraction(r + 1, d * S), False
+
+
+def recover_scale(nb, st):
+    """bin_scale is not an output of the kernel: floor(n_bins / (z_max - i_min)), cross-checked against
+    offset = -i_min * bin_scale with -i_min in 0..3; None when the float quotient is ambiguous"""
+    W, off = st['W'], st['off']
+    if not (W > 0):
+        return None
+    s0 = int(math.floor(nb / W))
+    for s in (s0, s0 - 1, s0 + 1):
+        if s > 0 and off % s == 0 and off // s in (0, 1, 2, 3):
+            return s if (off > 0 or s == s0) else None
+    return None
+
+
+INT_STATS = {'exact': 0, 'bracket': 0, 'ambiguous': 0, 'no-scale': 0}
+
+
+def int_cells(inp, out, qi, max_bracket=48):
+    """(lo, hi, x) per (query column, unique target column): v = (gamma - median) * scale recomputed from
+    the PWM entries with fractions; exact cells (all kernel float operations exact) give lo = hi"""
+    st = out['stage'][qi]
+    scale = recover_scale(inp['nb'], st)
+    if scale is None:
+        INT_STATS['no-scale'] += 1
+        return []
+    cells = []
+    n_br = 0
+    half = Fraction(1, 2)
+    for i, qc in enumerate(inp['Q'][qi]):
+        M = Fraction(st['med'][i])
+        qf = [Fraction(a) for a in qc]
+        q_dy = all(_dyadic(a) for a in qc)
+        for j, tc in enumerate(out['Tu']):
+            x = st['x'][j][i]
+            d2 = sum((a - Fraction(b)) ** 2 for a, b in zip(qf, tc))
+            lo_s, hi_s, sq = _sqrt_bracket(d2)
+            if sq and q_dy and all(_dyadic(b) for b in tc):
+                g = -lo_s
+                v = (g - M) * scale
+                if _is_rep(g - M) and _is_rep(v) and _is_rep(v + half):
+                    cells.append((v, v, x))
+                    INT_STATS['exact'] += 1
+                    continue
+            if n_br >= max_bracket:
+                continue
+            # kernel: z = |q|^2 + |t|^2 - 2 q.t in floats (abs. error <= ~1e-15), gamma = -sqrt(z)
+            if d2 == 0:
+                dg = Fraction(5, 10 ** 8)
+            elif d2 < Fraction(1, 10 ** 8):
+                INT_STATS['ambiguous'] += 1
+                continue
+            else:
+                dg = Fraction(1, 10 ** 14) / (2 * lo_s) + Fraction(1, 10 ** 14)
+            eps = Fraction(scale, 10 ** 12)
+            lo = (-hi_s - dg - M) * scale - eps
+            hi = (-lo_s + dg - M) * scale + eps
+            if math.floor(lo + half) != math.floor(hi + half):
+                INT_STATS['ambiguous'] += 1
+                continue
+            # keep the literal short: 30 significant digits are plenty for a decided floor
+            cells.append((lo, hi, x))
+            INT_STATS['bracket'] += 1
+            n_br += 1
+    return cells
+
+
+def _short(fr, down):
+    """round a rational outward to denominator 10^24 (keeps the bracket rigorous)"""
+    S = 10 ** 24
+    n = fr * S
+    k = math.floor(n) if down else math.ceil(n)
+    return Fraction(k, S)
+
+
+def int_case(inp, out, qi):
+    cells = int_cells(inp, out, qi)
+    if not cells:
+        return None
+    lits = []
+    for lo, hi, x in cells:
+        if lo != hi:
+            lo, hi = _short(lo, True), _short(hi, False)
+            if math.floor(lo + Fraction(1, 2)) != math.floor(hi + Fraction(1, 2)):
+                continue
+        lits.append('(%s, %s, %s)' % ('(%s # %d)%%Q' % (C.z(lo.numerator), lo.denominator),
+                                      '(%s # %d)%%Q' % (C.z(hi.numerator), hi.denominator), C.z(x)))
+    return '(KInt %s)' % C.lst(lits) if lits else None
+
+
 MODEL_BUDGET = 4_000_000
 
 
@@ -218,6 +333,10 @@ def coq_case(inp, out):
         parts.append('(KQuery %s %s %s)' % (C.boolean(wm), call_lit(inp, out, qi), outcome_lit(inp, out, qi)))
         if inp.get('mono', True):
             parts += mono_cases(inp, out, qi)
+        if inp.get('intcheck', True):
+            k = int_case(inp, out, qi)
+            if k:
+                parts.append(k)
     return '(KMany %s)' % C.lst(parts)
 
 
@@ -258,7 +377,7 @@ def hist_key(inp, out):
     zero = any(0 in row for st in out['stage'] for row in st['x'])
     side = '' if _side_ok(inp, out) else '/SIDE-CONDITION-VIOLATED'
     qm = max(len(q) for q in inp['Q'])
-    return 'bins<=20' * (nb <= 20) + 'bins21-100' * (20 < nb <= 100) + 'bins>100' * (nb > 100) + \
+    return ('coarse/' if inp.get('coarse') else '') + 'bins<=20' * (nb <= 20) + 'bins21-100' * (20 < nb <= 100) + 'bins>100' * (nb > 100) + \
         '/nq<=8' * (qm <= 8) + '/nq>8' * (qm > 8) + ('/rc' if inp['rc'] else '/fwd') + \
         ('/hash' if inp['ntb'] else '') + ('/zero-sim' if zero else '') + side
 
@@ -308,6 +427,54 @@ def gen_call(rng, lens_q, lens_t, nbs, big=False):
     return {'kind': 'tomtom', 'Q': Q, 'T': T, 'nb': nb, 'rc': rc, 'ntb': ntb}
 
 
+U = [.25, .25, .25, .25]
+
+
+def coarse_columns():
+    """all columns over the grid {0, 1/4, 1/2, 1} that sum to 1"""
+    cols = [list(U)]
+    for i in range(4):
+        e = [0.0] * 4
+        e[i] = 1.0
+        cols.append(e)
+    for i in range(4):
+        for j in range(i + 1, 4):
+            h = [0.0] * 4
+            h[i] = h[j] = 0.5
+            cols.append(h)
+    for i in range(4):
+        for j in range(4):
+            for k in range(j + 1, 4):
+                if i != j and i != k:
+                    c = [0.0] * 4
+                    c[i] = 0.5
+                    c[j] = c[k] = 0.25
+                    cols.append(c)
+    return cols
+
+
+COARSE = coarse_columns()
+
+
+def gen_coarse(rng):
+    """PWMs over the grid {0,1/4,1/2,1}: distances 0, 1/2, 1 are exact, medians are grid values, so the
+    scaled similarity is often exactly k + 1/2 (with an odd bin scale) - the integerisation's rounding
+    rule is then observable bit-exactly. Uniform and half/half columns are favoured (exact distances)."""
+    w = [6] + [1] * 4 + [3] * 6 + [1] * 12
+
+    def motif(L):
+        return [list(rng.choices(COARSE, weights=w)[0]) for _ in range(L)]
+    nb = rng.choice([53, 75, 150, 53, 75, 150, 2 * rng.randint(10, 99) + 1, rng.choice([25, 37, 50, 100, 200])])
+    Q = [motif(rng.randint(1, 5)) for _ in range(rng.randint(1, 2))]
+    T = [motif(rng.randint(1, 5)) for _ in range(rng.randint(2, 4))]
+    if rng.random() < 0.5:
+        T.append([list(c) for c in Q[0]])
+    if distinct_cols(T) < 2:
+        T.append([[0.5, 0.5, 0.0, 0.0], [0.0, 0.0, 0.5, 0.5]])
+    return {'kind': 'tomtom', 'Q': Q, 'T': T, 'nb': nb, 'rc': rng.random() < 0.5,
+            'ntb': 100 if rng.random() < 0.3 else None, 'coarse': True}
+
+
 def gen_zero(rng):
     """single-column query with some integerised similarity equal to 0 (found by calling the kernel)"""
     rs = np_rng(rng)
@@ -339,8 +506,11 @@ def gen_zero(rng):
 def generate(tier, rng):
     quick = tier != 'thorough'
     small = list(range(1, 8))
-    n_small, n_zero, n_mid, n_long, n_big = (70, 10, 14, 8, 3) if quick else (300, 30, 50, 24, 6)
+    n_small, n_zero, n_mid, n_long, n_big = (60, 8, 12, 7, 3) if quick else (280, 30, 50, 24, 6)
+    n_coarse = 24 if quick else 120
     light, heavy = [], []
+    for _ in range(n_coarse):
+        light.append(gen_coarse(rng))
     for _ in range(n_small):
         light.append(gen_call(rng, small, small, [5, 8, 10, 10, 15, 20, 20, 30]))
     for _ in range(n_zero):
